@@ -35,7 +35,7 @@ import os, sys
 claimed = sys.argv[1:]
 if "C14" in claimed:
     chk("C14", "fsim", "fault_enumeration",
-        "Every registered feature-map class, the serialisable evaluator and every model composition of the zoo is dumped and reloaded through the package's own entry points on a simulated file system; every raw write index is failed (ENOSPC, sticky), every raw read index is failed (EIO), short reads/writes and open errors are injected, files are re-loaded in a fresh interpreter under another PYTHONHASHSEED, and seeded op histories (overwrite, re-dump of loaded objects, faults, user subclass definitions, objects held across later I/O, dump/load under changed NumPy global state; a quarter of them on a real scratch directory so that memory-mapped loads are exercised) are checked against a path->object reference model; rejection cases are repeated in an interpreter started with -O; every enumerated object is also loaded under relative names (simulated working directory), under the other / a neutral / no extension with the format stated, and with every environment variable the package is seen to read pointing at look-alike files; two-process restarts let a writer process dump and a reader process that has built and used objects of its own load. Two or three client threads of one process save and load their own files concurrently under a seeded scheduler that pre-empts at every operation on the simulated tree (open, raw read/write, close, rename, remove, exists, stat), with write faults belonging to one client while the others run; each client must see what it would see alone. Exhaustive over fault positions for the enumerated objects (incl. every parameter-array layout, float32 parameters and inputs), sampled over histories.",
+        "Every registered feature-map class, the serialisable evaluator and every model composition of the zoo is dumped and reloaded through the package's own entry points on a simulated file system; every raw write index is failed (ENOSPC, sticky), every raw read index is failed (EIO), short reads/writes and open errors are injected, files are re-loaded in a fresh interpreter under another PYTHONHASHSEED, and seeded op histories (overwrite, re-dump of loaded objects, faults, user subclass definitions, objects held across later I/O, dump/load under changed NumPy global state; a quarter of them on a real scratch directory so that memory-mapped loads are exercised) are checked against a path->object reference model; rejection cases are repeated in an interpreter started with -O; every enumerated object is also loaded under relative names (simulated working directory), under the other / a neutral / no extension with the format stated, and with every environment variable the package is seen to read pointing at look-alike files; two-process restarts let a writer process dump and a reader process that has built and used objects of its own load. Two or three client threads of one process save and load their own files concurrently under a seeded scheduler that pre-empts at every operation on the simulated tree (open, raw read/write, close, rename, remove, exists, stat), with write faults belonging to one client while the others run; each client must see what it would see alone. Kernels of one model may share one feature-list object, and the same in-place change is applied to an original and to its reloaded twin. Exhaustive over fault positions for the enumerated objects (incl. every parameter-array layout, float32 parameters and inputs), sampled over histories.",
         "Trusts CPython io.Buffered*/TextIOWrapper, PyYAML, joblib as real components; models are synthetic; no power-loss semantics (the code never syncs and the property does not promise it); HDF5 analyzer files are outside the in-memory layer.",
         "deterministic simulation: in-memory file system under builtins.open with enumerated I/O fault injection, process-restart fault, seeded operation histories against a reference model, seeded interleaving of concurrent client threads at file-system operations",
         "DESIGN.md §3.3")
@@ -49,7 +49,7 @@ if "C16" in claimed:
 else: PENDING["C16"]=1
 if "C09" in claimed:
     chk("C09", "histsim", "exploration",
-        "Seeded call histories on long-lived calculators, generators, plans and evaluators (batched vs single density matrices, block-size changes incl. grids above the block cap, repeats, spin/molecule/grid/model interleavings, several live objects of one kind, forces between energy calls, aliasing, workspace reuse and buffers overwritten after return, look-alike inputs, allocator-content perturbation) are executed on the real code and compared call by call with the answers of fresh objects; calls are interrupted at seeded points (injected MemoryError / KeyboardInterrupt at the k-th Python line inside the package) and every later call on the same objects is still compared with fresh objects; the shallow fault points of the call that follows a configuration switch are enumerated (set-up phase in quick, whole call in thorough); all objects are dropped and collected between items of data-set loops; the calls of every fourth calculator history are re-made in a fresh interpreter in reverse order (module-level state); caller-owned inputs and option objects are digested before and after each call; optional settings (density threshold, angular cut-off, top exponent) vary per calculator, two differently configured calculators of one model share one grids object, one request is swept over every memory budget, and plans are called on sub-ranges of their samples and compared with the slice of the whole evaluation. Kohn-Sham-object histories also swap the functional (set_mlxc, with or without initializer objects), run the package's ElectronAnalyzer.from_calc on the live object (also interrupted inside its energy evaluation on the temporary grids), and ask all four gradient drivers (restricted/unrestricted, with/without grid response) for their matrices after energy calls of either spin treatment; weave histories revisit one (spin treatment, molecule, grids) coordinate after the others moved; displaced, indefinite density matrices (derivative checks) are swept over every memory budget; analyzer objects are asked for several functionals, grids and quantities in sequence.",
+        "Seeded call histories on long-lived calculators, generators, plans and evaluators (batched vs single density matrices, block-size changes incl. grids above the block cap, repeats, spin/molecule/grid/model interleavings, several live objects of one kind, forces between energy calls, aliasing, workspace reuse and buffers overwritten after return, look-alike inputs, allocator-content perturbation) are executed on the real code and compared call by call with the answers of fresh objects; calls are interrupted at seeded points (injected MemoryError / KeyboardInterrupt at the k-th Python line inside the package) and every later call on the same objects is still compared with fresh objects; the shallow fault points of the call that follows a configuration switch are enumerated (set-up phase in quick, whole call in thorough); all objects are dropped and collected between items of data-set loops; the calls of every fourth calculator history are re-made in a fresh interpreter in reverse order (module-level state); caller-owned inputs and option objects are digested before and after each call; optional settings (density threshold, angular cut-off, top exponent) vary per calculator, two differently configured calculators of one model share one grids object, one request is swept over every memory budget, and plans are called on sub-ranges of their samples and compared with the slice of the whole evaluation. Kohn-Sham-object histories also swap the functional (set_mlxc, with or without initializer objects), run the package's ElectronAnalyzer.from_calc on the live object (also interrupted inside its energy evaluation on the temporary grids), and ask all four gradient drivers (restricted/unrestricted, with/without grid response) for their matrices after energy calls of either spin treatment; weave histories revisit one (spin treatment, molecule, grids) coordinate after the others moved; displaced, indefinite density matrices (derivative checks) are swept over every memory budget; analyzer objects are asked for several functionals, grids and quantities in sequence. Feature lists of every registered map class are asked for values, derivatives and chunks on caller-owned arrays with NaN, zero and huge entries; SDMX generators are asked for every matrix of a stack separately as well; dedicated histories put models with nonlocal and SDMX parts on grids above the block cap.",
         "Models are synthetic; molecules <= 3 atoms (plus one-atom 86 800-point grids); allocator perturbation via glibc M_PERTURB; an interrupted call is un-acknowledged (nothing is demanded of it); tolerance 1e-10 relative separates summation-order noise (1e-16) from stale-cache effects (>=1e-9).",
         "deterministic simulation: seeded operation histories with legal-perturbation injection (batching, blocking, aliasing, buffer reuse, allocator content) and failure injection at seeded points inside calls, against a fresh-object reference model",
         "DESIGN.md §3.2")
@@ -78,6 +78,6 @@ m = {
  ],
  "checks": checks,
  "not_applicable": sorted(na, key=lambda e: e["property_id"]),
- "notes": "fix: commits in /repo: 82c6c38 (OmegaMap code, C14), 047054a (sigma/tau clamped in place, C09), d4cf81c (vfeat scaled in place, C09), 84060c1 (stale index in nr_uks_nldf, C09), 416ce1f (batched NLDF potential from last cache, C09), 0de4126 (two-sample model evaluation raised, C09), c18ba20 (racy k loop in atc_reciprocal_convolution, C10), d990871 (reference energies not stored with a correlation kernel first, C16), 1ac148e (KernelEvaluator kept strided views, C14), ca0230b (half-initialised NLDF generator after an interrupted rebuild, C09), 0ad5255 (NULL pointer freed by a destructor after an interrupted constructor, C09), 670cafa (screened multi-contraction shells zeroed neighbouring rows in the SDMX radial loop: schedule-dependent result and heap overflow, C10), efb8e5b (rks_grad.get_vxc_nldf wrong for several density matrices in one call, C09). 2e5951d (ElectronAnalyzer.from_calc left the calculator's generators built for the temporary grids, C09), f81262b (rks_grad.get_vxc_full_response used a stale semilocal plan after an unrestricted call / build(), C09). 61b8413 (ElectronAnalyzer.from_calc without try/finally left the calculator on the temporary grid level after a failed evaluation, C09). All are recorded as fixed in /verif/known_findings.json. No source hooks. See DESIGN.md.",
+ "notes": "fix: commits in /repo: 82c6c38 (OmegaMap code, C14), 047054a (sigma/tau clamped in place, C09), d4cf81c (vfeat scaled in place, C09), 84060c1 (stale index in nr_uks_nldf, C09), 416ce1f (batched NLDF potential from last cache, C09), 0de4126 (two-sample model evaluation raised, C09), c18ba20 (racy k loop in atc_reciprocal_convolution, C10), d990871 (reference energies not stored with a correlation kernel first, C16), 1ac148e (KernelEvaluator kept strided views, C14), ca0230b (half-initialised NLDF generator after an interrupted rebuild, C09), 0ad5255 (NULL pointer freed by a destructor after an interrupted constructor, C09), 670cafa (screened multi-contraction shells zeroed neighbouring rows in the SDMX radial loop: schedule-dependent result and heap overflow, C10), efb8e5b (rks_grad.get_vxc_nldf wrong for several density matrices in one call, C09). 2e5951d (ElectronAnalyzer.from_calc left the calculator's generators built for the temporary grids, C09), f81262b (rks_grad.get_vxc_full_response used a stale semilocal plan after an unrestricted call / build(), C09). 61b8413 (ElectronAnalyzer.from_calc without try/finally left the calculator on the temporary grid level after a failed evaluation, C09). f49b8a8 (OmegaMap.fill_feat_ replaced NaN entries in the caller's feature array, C09). All are recorded as fixed in /verif/known_findings.json. No source hooks. See DESIGN.md.",
 }
 json.dump(m, open("/verif/MANIFEST.json", "w"), indent=1)
